@@ -1,5 +1,6 @@
 // simrun: one binary per generated program. Worker mode iterates run indices; replay mode interprets one plan.
 #include "engine.h"
+#include "bulk.h"
 #include "walker.h"
 #include <OCTET_STRING.h>
 #include <asn_SET_OF.h>
@@ -97,6 +98,12 @@ void *value_from_spec(asn_TYPE_descriptor_t *td, const std::string &spec) {
         if(k >= texts.size()) return nullptr;
         return value_from_xer(td, texts[k]);
     }
+    if(spec.rfind("bulk:", 0) == 0) {          // bulk:<template>:<units> - one big payload, from the XER templates of sim/bulk.h
+        size_t c = spec.rfind(':');
+        std::string name = spec.substr(5, c - 5); size_t k = (size_t)strtoull(spec.c_str() + c + 1, 0, 10);
+        for(int i = 0; i < NBULK; i++) if(name == BULKS[i].name && std::string(td->name) == BULKS[i].type) return value_from_xer(td, BULKS[i].xer(k));
+        return nullptr;
+    }
     if(spec == "zero") {
         size_t sz = struct_size_of(td);
         return sz ? sim_alloc_tracked(sz) : nullptr;
@@ -104,24 +111,7 @@ void *value_from_spec(asn_TYPE_descriptor_t *td, const std::string &spec) {
     return nullptr;
 }
 
-ValueChoice choose_value(uint64_t run_seed, size_t max_budget) {
-    ValueChoice c;
-    Rng rt = stream(run_seed, "type"), rv = stream(run_seed, "value");
-    c.td = choose_type(rt);
-    if(fillable(c.td)) {
-        size_t budget = 8 + (size_t)rv.below(max_budget - 7);
-        if(rv.chance(1, 4)) budget = 8 + (size_t)rv.below(40);
-        else if(max_budget >= 160 && !is_recursive(c.td) && rv.chance(1, 12)) budget = 16000 + (size_t)rv.below(54000);   // long strings / lists: 16K fragmentation, multi-octet lengths
-        uint64_t vs = rv.next();
-        c.origin = "fill:" + std::to_string(vs) + ":" + std::to_string(budget);
-    } else {
-        auto texts = seed_value_texts(c.td);
-        if(texts.empty()) { G.add("skip.no_seed_values"); return c; }
-        c.origin = "seedfile:" + std::to_string(rv.below(texts.size()));
-    }
-    c.st = value_from_spec(c.td, c.origin);
-    if(!c.st) G.add("skip.value_not_made");
-    else {
+static void reach_probes(const ValueChoice &c) {
         // reach probes: did the workload meet the codecs' size thresholds (16K fragments, 64K counts, scratch pads)?
         size_t max_el = 0, max_str = 0;
         walk(c.td, c.st, [&](const Node &n) {
@@ -135,7 +125,38 @@ ValueChoice choose_value(uint64_t run_seed, size_t max_budget) {
         if(max_str >= 16384) G.add("reach.values_with_16K_octet_string");
         if(max_str >= 65536) G.add("reach.values_with_64K_octet_string");
         if(max_str >= 128) G.add("reach.values_with_128_octet_string");
+}
+
+ValueChoice choose_value(uint64_t run_seed, size_t max_budget) {
+    ValueChoice c;
+    Rng rt = stream(run_seed, "type"), rv = stream(run_seed, "value");
+    c.td = choose_type(rt);
+    // now and then (1 run in 16, on programs that have such types): a value with one big payload, enough for several 16K PER
+    // fragments and multi-octet length determinants in every syntax
+    static std::vector<int> bulk_here = [] { std::vector<int> v; for(int i = 0; i < NBULK; i++) if(pdu_by_name(BULKS[i].type)) v.push_back(i); return v; }();
+    if(!bulk_here.empty() && max_budget >= 160 && rv.chance(1, 16)) {
+        static const size_t ks[] = {20000, 40000, 70000};
+        const Bulk &b = BULKS[bulk_here[rv.below(bulk_here.size())]];
+        c.td = pdu_by_name(b.type);
+        c.origin = std::string("bulk:") + b.name + ":" + std::to_string(ks[rv.below(3)]);
+        c.st = value_from_spec(c.td, c.origin);
+        if(c.st) { G.add("reach.bulk_values"); reach_probes(c); return c; }
+        c.td = choose_type(rt);
     }
+    if(fillable(c.td)) {
+        size_t budget = 8 + (size_t)rv.below(max_budget - 7);
+        if(rv.chance(1, 4)) budget = 8 + (size_t)rv.below(40);
+        else if(max_budget >= 160 && !is_recursive(c.td) && rv.chance(1, 12)) budget = 16000 + (size_t)rv.below(54000);   // long strings / lists: 16K fragmentation, multi-octet lengths
+        uint64_t vs = rv.next();
+        c.origin = "fill:" + std::to_string(vs) + ":" + std::to_string(budget);
+    } else {
+        auto texts = seed_value_texts(c.td);
+        if(texts.empty()) { G.add("skip.no_seed_values"); return c; }
+        c.origin = "seedfile:" + std::to_string(rv.below(texts.size()));
+    }
+    c.st = value_from_spec(c.td, c.origin);
+    if(!c.st) G.add("skip.value_not_made");
+    else reach_probes(c);
     return c;
 }
 
